@@ -270,6 +270,20 @@ def observe(ws, name, relmap, want_orphans=True):
     return obs
 
 
+def settle(ws, rels, timeout=5.0):
+    """waits until every job directory in `rels` shows a marker (.done / .failed / .pid): the starts in
+    progress are over.  Looks at files only."""
+    t0 = time.time()
+    ws = Path(ws)
+    while time.time() - t0 < timeout:
+        todo = [r for r in rels if not any((ws / "jobs" / r).glob("*.done")) and not any((ws / "jobs" / r).glob("*.failed"))
+                and not any((ws / "jobs" / r).glob("*.pid"))]
+        if not todo:
+            break
+        time.sleep(0.005)
+    time.sleep(0.03)
+
+
 PROBE = (
     "import fcntl,sys\n"
     "try:\n f=open(sys.argv[1],'a')\nexcept OSError:\n print('free'); sys.exit()\n"
@@ -324,6 +338,7 @@ def agent_main(libdir):
             continue
         ws, name = cmd["ws"], cmd["name"]
         objs = {}
+        rels = {}
         arm = {"k": None, "n": 0, "mode": None}
         real.release.clear()
 
@@ -368,6 +383,9 @@ def agent_main(libdir):
                     try:
                         rel, o = real.submit(xp, objs, c["kind"], c["x"], c.get("dep"), c.get("sync", True))
                         objs[c["job"]] = o
+                        rels[c["job"]] = rel
+                        if c.get("settle"):
+                            settle(ws, [r for lab, r in rels.items() if not lab.startswith("e")])
                         emit(ev="submitted", rel=rel)
                     except Exception as e:
                         emit(ev="submit-error", what=f"{type(e).__name__}: {e}")
@@ -389,6 +407,8 @@ def agent_main(libdir):
         os.rename, os.unlink = orig_rename, orig_unlink
         real.release.set()
         emit(ev="exited", entered=entered, raised=raised)
+    out.flush()
+    os._exit(0)  # a process whose run is over goes away (and with it the job locks of interrupted starts)
 
 
 class Agent:
@@ -451,7 +471,7 @@ class Agent:
         if not self.dead:
             self.send(cmd="quit")
             try:
-                self.p.wait(timeout=5)
+                self.p.wait(timeout=3)
             except subprocess.TimeoutExpired:
                 self.kill()
             self.dead = True
@@ -496,11 +516,11 @@ class HistoryRunner:
             if op.get("p", 0) != 0:
                 self.agent(op["p"])
 
-    def record(self, idx, res, obs=True, **extra):
+    def record(self, idx, res, obs=True, orphans=True, **extra):
         ev = {"i": idx, "res": res}
         ev.update(extra)
         if obs:
-            ev["obs"] = observe(self.ws, XPNAME, self.relmap)
+            ev["obs"] = observe(self.ws, XPNAME, self.relmap, want_orphans=orphans)
         self.events.append(ev)
         return ev
 
@@ -533,7 +553,9 @@ class HistoryRunner:
                         rel, o = self.real.submit(xp0, self.objs0, op["kind"], op["x"], op.get("dep"), op.get("sync", True))
                         self.objs0[op["job"]] = o
                         self.relmap[rel] = op["job"]
-                        self.record(idx, "submitted", obs=op.get("sync", True))
+                        if op.get("settle"):
+                            self.quiesce0()
+                        self.record(idx, "submitted", obs=op.get("sync", True), orphans=bool(op.get("settle")))
                     except Exception as e:
                         self.record(idx, "submit-error", what=f"{type(e).__name__}: {e}")
                         self.abort = "submit failed"
@@ -543,11 +565,19 @@ class HistoryRunner:
                 elif kind == "exit":
                     if op["how"] == "ok":
                         self.real.release.set()
+                    else:
+                        self.quiesce0()
                     self.exit0 = idx
                     return op["how"]
             else:
                 self.agent_op(idx, op, kind, p)
         return "ok"
+
+    def quiesce0(self):
+        """process 0 outlives its runs: before it aborts a run, the starts in progress are allowed to finish
+        (a start interrupted by the stopped loop would keep the job's lock for the rest of the worker's
+        life and stall later *agents*; a real process ends).  Looks at the job markers only."""
+        settle(self.ws, [rel for rel, lab in self.relmap.items() if lab in self.objs0 and not lab.startswith("e")])
 
     def block0(self, idx):
         self.objs0 = {}
@@ -612,7 +642,7 @@ class HistoryRunner:
             if ev is None:
                 if expect_blocked:
                     self.pending[p] = ag
-                    self.record(idx, "blocked")
+                    self.record(idx, "blocked", orphans=False)
                 else:
                     self.record(idx, "stuck", lock=probe_lock(self.ws, XPNAME))
                     ag.kill()
@@ -627,11 +657,12 @@ class HistoryRunner:
                 self.record(idx, "enter-error", got=ev)
                 self.abort = "agent enter failed"
         elif kind == "submit":
-            ag.send(cmd="submit", job=op["job"], kind=op["kind"], x=op["x"], dep=op.get("dep"), sync=op.get("sync", True))
+            ag.send(cmd="submit", job=op["job"], kind=op["kind"], x=op["x"], dep=op.get("dep"), sync=op.get("sync", True),
+                    settle=bool(op.get("settle")))
             ev = ag.expect({"submitted", "submit-error"}, 60)
             if ev and ev["ev"] == "submitted":
                 self.relmap[ev["rel"]] = op["job"]
-                self.record(idx, "submitted", obs=op.get("sync", True))
+                self.record(idx, "submitted", obs=op.get("sync", True), orphans=bool(op.get("settle")))
             else:
                 self.record(idx, "submit-error", got=ev)
                 self.abort = "agent submit failed"
@@ -655,6 +686,7 @@ class HistoryRunner:
                 else:
                     self.record(idx, "died-exiting", lock=probe_lock(self.ws, XPNAME))
             else:
+                ag.close()  # the process of a finished run goes away
                 if self.pending:
                     self.record(idx, "exited", obs=False, raised=ev.get("raised"))
                     self.wait_pending_inside(idx)
@@ -674,7 +706,7 @@ class HistoryRunner:
             was = p in self.pending
             self.pending.pop(p, None)
             ag.kill()
-            self.record(idx, "gave-up", was_pending=was)
+            self.record(idx, "gave-up", orphans=False, was_pending=was)
 
     def run(self):
         t0 = time.time()
@@ -698,8 +730,16 @@ def worker_main(specfile, outfile):
     spec = json.loads(Path(specfile).read_text())
     os.environ["XPM_WORKDIR"] = str(Path(spec["base"]) / "xpmwork")
     real = Real(spec["lib"])
+    debug = os.environ.get("C16_DEBUG")
+    if debug:
+        import faulthandler
+
+        faulthandler.dump_traceback_later(int(debug), exit=True)
     with open(outfile, "w") as out:
         for hist in spec["histories"]:
+            if debug:
+                sys.stderr.write(f"history {hist['id']}\n")
+                sys.stderr.flush()
             res = HistoryRunner(real, spec["lib"], spec["base"], hist).run()
             out.write(json.dumps(res) + "\n")
             out.flush()
@@ -767,7 +807,8 @@ def gen_history(rng, hid, agents_ok=True, rich=True):
             if kind == "f" and lab in mine:
                 continue  # re-submitting a failed job inside one run is another property's business (C06)
             mine.append(lab)
-            out.append({"op": "submit", "p": p, "job": lab, "kind": kind, "x": x, "dep": dep, "sync": True})
+            out.append({"op": "submit", "p": p, "job": lab, "kind": kind, "x": x, "dep": dep, "sync": True,
+                        "settle": rng.random() < 0.35})
         return out
 
     for r in range(nruns):
@@ -803,8 +844,9 @@ def gen_history(rng, hid, agents_ok=True, rich=True):
                 body.insert(rng.randrange(pos + 1, len(body) + 1), {"op": "giveup", "p": contender})
                 contender = None
         # a racy last submission (no barrier) right before an abort
-        if body and body[-1]["op"] == "submit" and contender is None and end in ("exc", "kill", "kbd") and rng.random() < 0.3:
+        if p != 0 and body and body[-1]["op"] == "submit" and contender is None and end in ("exc", "kill") and rng.random() < 0.4:
             body[-1]["sync"] = False
+            body[-1]["settle"] = False
         ops += body
         if end in ("ok", "exc", "kbd", "sysexit"):
             ops.append({"op": "exit", "p": p, "how": end})
@@ -1087,7 +1129,7 @@ def run_histories(ctx, hists, with_model=True, nworkers=None):
         except subprocess.TimeoutExpired:
             p.kill()
             _, err = p.communicate()
-            raise RuntimeError("C16 worker timed out")
+            raise RuntimeError("C16 worker timed out: " + (err or "")[-3000:])
         if out.exists():
             for line in out.read_text().splitlines():
                 r = json.loads(line)
